@@ -2753,7 +2753,7 @@ func builtinGhostSort(name string) string {
 // on the machine's load or on how long the solver binary takes to start: the query runs under a resource limit (z3's
 // rlimit, a deterministic step count: the same query gets the same answer on every run), never under a clock. The wall
 // clock limit beside it is only a backstop against a wedged process; when it strikes (or the solver could not be run)
-// the query is repeated, and if no attempt ends with a definite answer or with the resource limit the unit is reported
+// the query is repeated (8 attempts, backing off), and if no attempt ends with a definite answer or with the resource limit the unit is reported
 // as not analysable instead of being analysed with a different abstraction.
 func (u *Unit) unreachable(st *State) bool {
 	if u.discovery || u.pure > 0 || st.pc == "true" {
@@ -2811,7 +2811,7 @@ const reachRlimit = 20000000
 func solveReach(q string) (string, float64, int64) {
 	dir := filepath.Join(os.TempDir(), "gowp-q")
 	os.MkdirAll(dir, 0o755)
-	file := filepath.Join(dir, "reach_"+queryHash(q)[:24]+"_"+itoa(os.Getpid())+".smt2")
+	file := filepath.Join(dir, "reach_"+queryHash(q)[:24]+tmpSuffix()+".smt2")
 	if err := os.WriteFile(file, []byte(q), 0o644); err != nil {
 		return "", 0, 0
 	}
@@ -2820,7 +2820,8 @@ func solveReach(q string) (string, float64, int64) {
 		return []string{"z3-new", "-smt2", "-st", "rlimit=" + strconv.FormatInt(reachRlimit, 10), "-T:" + itoa(t), f}
 	}}
 	var el float64
-	for attempt := 0; attempt < 4; attempt++ {
+	last := ""
+	for attempt := 0; attempt < 8; attempt++ {
 		var res, out string
 		res, out, el = runSolver(sd, file, 120)
 		var rl int64
@@ -2831,9 +2832,19 @@ func solveReach(q string) (string, float64, int64) {
 		case "unsat", "sat", "unknown":
 			return res, el, rl
 		}
-		// "timeout" (wall clock backstop) or "error" (process could not be run / was killed): not an answer
-		time.Sleep(time.Duration(attempt+1) * time.Second)
+		// "timeout" (wall clock backstop) or "error" (the process could not be started, was killed, or printed no
+		// answer): not an answer. Such failures come from a machine short of processes or memory; wait and try again
+		last = res + ": " + strings.TrimSpace(out)
+		d := time.Duration(1<<uint(attempt)) * time.Second
+		if d > 15*time.Second {
+			d = 15 * time.Second
+		}
+		time.Sleep(d)
 	}
+	if len(last) > 300 {
+		last = last[:300]
+	}
+	fmt.Fprintln(os.Stderr, "gowp: reachability query got no answer in 8 attempts; last:", last)
 	return "", el, 0
 }
 
